@@ -1175,6 +1175,8 @@ def remap(root, visit=default_visit, enter=default_enter, exit=default_exit,
     trace = kwargs.pop('trace', ())
     if trace is True:
         trace = ('visit', 'enter', 'exit')
+    elif trace is False or trace is None:
+        trace = ()
     elif isinstance(trace, str):
         trace = (trace,)
     if not isinstance(trace, (tuple, list, set)):
